@@ -1,5 +1,9 @@
 mod c01;
+mod c05;
 use vkit::{Check, Level};
 fn main() {
-    vkit::main(&[Check { id: "C01", level: Level::Exploration, run: c01::run }]);
+    vkit::main(&[
+        Check { id: "C01", level: Level::Exploration, run: c01::run },
+        Check { id: "C05", level: Level::Exploration, run: c05::run },
+    ]);
 }
